@@ -73,14 +73,14 @@ def countFields (parent : String) : Fields → Nat
   | .nil => 0
   | .cons fd _ rest => if ignoredField parent fd then countFields parent rest else countFields parent rest + 1
 
-/-- The raw bytes of one record (hex digits). -/
-def recBytes (r : Nat × String) : List Char := r.2.toList
+/-- The raw bytes of one record. -/
+def recBytes (r : Nat × Bytes) : Bytes := r.2
 /-- All raw bytes, in order: the `RawFields` value. -/
-def unkBytes (u : Unk) : List Char := u.flatMap recBytes
+def unkBytes (u : Unk) : Bytes := u.flatMap recBytes
 /-- `len(x)`: the length of the raw bytes. -/
 def unkLen (u : Unk) : Nat := (unkBytes u).length
 /-- All raw bytes recorded for field number `n`, in order. -/
-def unkGroup (n : Nat) (u : Unk) : List Char := (u.filter (fun r => r.1 == n)).flatMap recBytes
+def unkGroup (n : Nat) (u : Unk) : Bytes := (u.filter (fun r => r.1 == n)).flatMap recBytes
 
 /-- `equalUnknown`. -/
 def eqUnknown (x y : Unk) : Bool :=
